@@ -704,7 +704,9 @@ impl Layout for DynLayout {
     #[inline]
     fn size(&self, dim: usize) -> usize {
         debug_assert_dim_valid!(self, dim);
-        self.shape_and_strides[dim]
+        // Index the shape rather than `shape_and_strides`, so that an
+        // out-of-range `dim` panics instead of returning a stride.
+        self.shape()[dim]
     }
 
     /// Return the stride (offset between elements) in the tensor's element array.
@@ -717,7 +719,7 @@ impl Layout for DynLayout {
     #[inline]
     fn stride(&self, dim: usize) -> usize {
         debug_assert_dim_valid!(self, dim);
-        self.shape_and_strides[self.ndim() + dim]
+        self.strides()[dim]
     }
 
     fn indices(&self) -> DynIndices {
@@ -1175,7 +1177,10 @@ impl MutLayout for DynLayout {
     }
 
     fn resize_dim(&mut self, dim: usize, size: usize) {
-        self.shape_and_strides[dim] = size;
+        // Index the shape rather than `shape_and_strides`, so that an
+        // out-of-range `dim` panics instead of overwriting a stride.
+        let ndim = self.ndim();
+        self.shape_and_strides[..ndim][dim] = size;
     }
 
     fn transposed(&self) -> DynLayout {
@@ -1345,6 +1350,12 @@ pub trait ResizeLayout: MutLayout {
 impl ResizeLayout for DynLayout {
     fn insert_axis(&mut self, index: usize) {
         let ndim = self.ndim();
+        assert!(
+            index <= ndim,
+            "axis {} out of bounds for tensor with {} dims",
+            index,
+            ndim
+        );
         let new_size = 1;
 
         // Choose stride for new dimension as if we were inserting it at the
@@ -1364,6 +1375,12 @@ impl ResizeLayout for DynLayout {
     }
 
     fn remove_axis_of_any_size(&mut self, index: usize) {
+        assert!(
+            index < self.ndim(),
+            "axis {} out of bounds for tensor with {} dims",
+            index,
+            self.ndim()
+        );
         self.shape_and_strides.remove(index);
         self.shape_and_strides.remove(self.ndim() + index);
     }
@@ -1663,6 +1680,30 @@ mod tests {
 
     // The square of this value wraps around to zero.
     const BIG: usize = 1 << (usize::BITS / 2);
+
+    #[test]
+    fn test_dyn_layout_invalid_dim_does_not_modify_layout() {
+        use std::panic::{AssertUnwindSafe, catch_unwind};
+
+        let layout = DynLayout::from_shape(&[2, 3]);
+
+        for dim in [2, 3, 4, usize::MAX] {
+            let mut modified = layout.clone();
+            assert!(catch_unwind(AssertUnwindSafe(|| modified.resize_dim(dim, 1))).is_err());
+            assert_eq!(modified, layout);
+            assert!(
+                catch_unwind(AssertUnwindSafe(|| modified.remove_axis_of_any_size(dim))).is_err()
+            );
+            assert_eq!(modified, layout);
+            assert!(catch_unwind(AssertUnwindSafe(|| modified.size(dim))).is_err());
+            assert!(catch_unwind(AssertUnwindSafe(|| modified.stride(dim))).is_err());
+        }
+        for index in [3, 4, usize::MAX] {
+            let mut modified = layout.clone();
+            assert!(catch_unwind(AssertUnwindSafe(|| modified.insert_axis(index))).is_err());
+            assert_eq!(modified, layout);
+        }
+    }
 
     #[test]
     fn test_checked_shape_len() {
